@@ -795,7 +795,7 @@ func (s *c21Service) receive(peer, ty string, payload []byte) (o recvObs) {
 
 var c21TypeStrings = []string{"", "0", "1", "a455", "A455", "a456", "a454", "a457", "a465", "a467", "a453", "0a455", "00a455", "0000a455", "+a455", "-a455", "0xa455", "a4 55", " a455", "a455 ",
 	"a_455", "g455", "a45", "a4555", "ffff", "7fffffffffffffff", "8000000000000000", "-8000000000000000", "-8000000000000001", "ffffffffffffffff", "10000000000000000a455",
-	"42069", "a455\x00", "\xc3\xa9", "+", "-", "a463", "a465", "a461", "a45f", "a45d", "a45b", "a459"}
+	"1a455", "1a45f", "ffffa455", "100000000a455", "-5bab", "-5ba1", "55", "5f", "42069", "a455\x00", "\xc3\xa9", "+", "-", "a463", "a465", "a461", "a45f", "a45d", "a45b", "a459"}
 
 func genTypeString(r *Rng) string {
 	switch r.Intn(10) {
@@ -810,6 +810,24 @@ func genTypeString(r *Rng) string {
 		return s
 	case 7:
 		return fmt.Sprintf("%x", 42069+r.Range(-6, 22))
+	case 8:
+		// numbers that only ALIAS a peerswap type: equal to one modulo 2^16 / 2^32, the negative of its two's
+		// complement, or the same digits with a longer prefix (a parser that truncates would accept them)
+		t := int64(c21TypeNames[r.Intn(len(c21TypeNames))].t)
+		switch r.Intn(6) {
+		case 0:
+			return fmt.Sprintf("%x", t+int64(1+r.Intn(15))<<16)
+		case 1:
+			return fmt.Sprintf("%x", t+int64(1+r.Intn(3))<<32)
+		case 2:
+			return fmt.Sprintf("-%x", 65536-t)
+		case 3:
+			return fmt.Sprintf("-%x", int64(1)<<32-t)
+		case 4:
+			return fmt.Sprintf("ffff%x", t)
+		default:
+			return fmt.Sprintf("%x", t&0xff)
+		}
 	default:
 		n := r.Intn(6)
 		var b strings.Builder
